@@ -411,6 +411,49 @@ def gen_seq(rng):
     return " ".join(toks)
 
 
+def gen_scales(rng, kind):
+    """mixed scales, tolerance 0: one state collects a one-off reward of 2^28..2^32 (then an absorbing zero
+    state) next to states earning unit-size rewards; gamma = 1/2 and deterministic / half-half transitions so
+    that all h-step values (h up to 45) are exactly representable: vi_exact / pe_exact are checked bit for
+    bit at the REQUESTED horizon although the vector as a whole stops changing relatively after ~11 sweeps"""
+    nsmall = rng.choice([1, 2, 2]); S = nsmall + 2
+    A = rng.choice([1, 2, 2]) if kind == "vi" else rng.choice([1, 2])
+    order = list(range(S)); rng.shuffle(order)
+    b, z, small = order[0], order[1], order[2:]
+    big = 1 << rng.randint(28, 32)
+    half = kind == "vi" and rng.random() < 0.3          # some half/half rows: 2 fractional bits per sweep
+    h = rng.randint(14, 22) if (half or kind == "pe") else rng.randint(14, 45)
+    t = [[None] * A for _ in range(S)]; r = [[None] * A for _ in range(S)]
+    for s in range(S):
+        for a in range(A):
+            row = [0] * S
+            if s == z: row[z] = 2; x = 0
+            elif s == b and a == 0: row[z] = 2; x = big
+            else:
+                targets = small + [z] if s != b else small
+                if half and len(targets) > 1:
+                    i1, i2 = rng.sample(targets, 2); row[i1] = 1; row[i2] = 1
+                else:
+                    row[rng.choice(targets)] = 2
+                x = rng.randint(-4, 4) if s != b else rng.randint(0, 4)
+            t[s][a] = row; r[s][a] = [x] * S
+    toks = [kind, "dy", str(S), str(A), "1/2", str(h), "0"]
+    for s in range(S):
+        for a in range(A): toks += [q(x, 2) if x == 1 else ("0" if x == 0 else "1") for x in t[s][a]]
+    for s in range(S):
+        for a in range(A): toks += [str(x) for x in r[s][a]]
+    toks += ["0"]
+    if kind == "pe":
+        for s in range(S):
+            if s == b or rng.random() < 0.4:
+                # deterministic choice (at the big state always: 2^30 and h fractional bits do not fit together)
+                a0 = 0 if s == b else rng.randrange(A)
+                toks += ["1" if a == a0 else "0" for a in range(A)]
+            else:
+                toks += [q(x, 2) for x in composition(rng, 2, A)]
+    return " ".join(toks)
+
+
 def gen_mut(rng):
     """one Model and one SparseModel object mutated through setRewardFunction / setTransitionFunction /
     setDiscount between calls of solvers built once (PolicyEvaluation keeps a reference to its model)"""
@@ -491,7 +534,9 @@ def gen(rng, tier):
         out.append(gen_chain(rng, small=(tier != "thorough")))
     for _ in range(n):
         u = rng.random()
-        if u < 0.45: out.append(gen_dy(rng, "vi"))
+        if u < 0.015: out.append(gen_scales(rng, "vi"))
+        elif u < 0.02: out.append(gen_scales(rng, "pe"))
+        elif u < 0.45: out.append(gen_dy(rng, "vi"))
         elif u < 0.65: out.append(gen_dy(rng, "pe"))
         elif u < 0.78: out.append(gen_ge(rng, "vi"))
         elif u < 0.86: out.append(gen_ge(rng, "pe"))
